@@ -320,6 +320,25 @@ theorem mu_react (c : Cfg) (w : CoreB.WF c) (st st' : StB) (s : Nat)
               · simp only [wO, hph, hrx]; w_close
   · cases h
 
+theorem mu_orchFail (c : Cfg) (w : CoreB.WF c) (st st' : StB) (s : Nat)
+    (hA : InvA c st.a) (hinv : InvB c st) (h : stepB c st (.orchFail s) = some st') : mu c st' < mu c st := by
+  simp only [stepB] at h
+  split at h
+  · rename_i D hpcs hrxs
+    split at h
+    · cases h
+    · split at h
+      · cases h
+      · rename_i a' ha
+        cases h
+        obtain ⟨_, ⟨hsn, _⟩, hph, hcreq, hdeliv, hpc, hrx, hnow⟩ := stepA_react_leave ha
+        apply mu_lt_of (k := s)
+        · intro k hk; simp [wD, exitLoop, hdeliv]
+        · intro k hk; simp only [wO, exitLoop, hph, hrx]; w_close
+        · exact hsn
+        · simp only [wO, exitLoop, hph, hrx]; w_close
+  · cases h
+
 theorem mu_timeoutFire (c : Cfg) (w : CoreB.WF c) (st st' : StB) (s : Nat)
     (hA : InvA c st.a) (hinv : InvB c st) (h : stepB c st (.timeoutFire s) = some st') : mu c st' < mu c st := by
   simp only [stepB] at h
@@ -552,6 +571,7 @@ theorem mu_step (c : Cfg) (hwf : c.wf = true) (st st' : StB) (e : EvB)
   | cancelArrive s => have := mu_cancelArrive c w st st' s hA hinv h; simp only [isTick]; grind
   | waitReturn s => have := mu_waitReturn c w st st' s hA hinv h; simp only [isTick]; grind
   | react s => have := mu_react c w st st' s hA hinv h; simp only [isTick]; grind
+  | orchFail s => have := mu_orchFail c w st st' s hA hinv h; simp only [isTick]; grind
   | timeoutFire s => have := mu_timeoutFire c w st st' s hA hinv h; simp only [isTick]; grind
   | tidyReturn s pick => have := mu_tidyReturn c w st st' s pick hA hinv h; simp only [isTick]; grind
   | hStep j => have := mu_hStep c w st st' j hA hinv h; simp only [isTick]; grind
